@@ -346,7 +346,7 @@ impl Exec {
                 self.slots.remove(slot);
                 Ok(Out::Unit)
             }
-            Op::EnvNonUtf8(p) | Op::EnvDanglingSymlink(p) | Op::EnvRemoveBehind(p) => {
+            Op::EnvNonUtf8(p) | Op::EnvDanglingSymlink(p) | Op::EnvRemoveBehind(p) | Op::EnvSpecial(p, _) => {
                 self.env_fault(op, p);
                 Ok(Out::Unit)
             }
@@ -375,6 +375,24 @@ impl Exec {
             Op::EnvDanglingSymlink(_) => {
                 if !target.exists() && target.parent().map(|x| x.is_dir()).unwrap_or(false) {
                     let _ = std::os::unix::fs::symlink("/nonexistent/verif-dangling", &target);
+                }
+            }
+            Op::EnvSpecial(_, kind) => {
+                if !target.exists() && std::fs::symlink_metadata(&target).is_err() && target.parent().map(|x| x.is_dir()).unwrap_or(false) {
+                    match kind % 3 {
+                        0 => {
+                            // a unix socket file (stays behind when the listener is dropped)
+                            let _ = std::os::unix::net::UnixListener::bind(&target);
+                        }
+                        1 => {
+                            let _ = std::os::unix::fs::symlink(&target, &target);
+                        }
+                        _ => {
+                            let sib = target.parent().unwrap().join("verif-sibling-target");
+                            let _ = std::fs::write(&sib, b"sibling");
+                            let _ = std::os::unix::fs::symlink("verif-sibling-target", &target);
+                        }
+                    }
                 }
             }
             Op::EnvRemoveBehind(_) => {
